@@ -459,6 +459,7 @@ class Sim:
         self.durations = durations or [0.1]
         self.outcomes = outcomes or ["PASS"]
         self.always_fail = always_fail or {}  # ident -> status
+        self.fail_first = {}                  # ident -> status of its first execution only (a flaky test)
         self.previous = previous  # list of previous job result dicts or None
         self.max_iterations = max_iterations
         self.scratch = scratch
@@ -559,6 +560,8 @@ class Sim:
     def outcome_for(self, ident, attempt):
         if ident in self.always_fail:
             return self.always_fail[ident]
+        if attempt == 0 and ident in self.fail_first:
+            return self.fail_first[ident]
         return self.outcomes[stable_index(f"{ident}@{attempt}", len(self.outcomes))]
 
     # -- the run
